@@ -126,22 +126,26 @@ Label(s) ==
     ELSE LET kind == Attr(b, "kind")
              r == Read(b) IN
          Ret(IF Ok(r) /\ NodeTy(r) = "text" /\ kind \in LabelKinds THEN Parse(r, kind) ELSE r, TRUE)
-(* invariant(): rv in {-1, 0, 1} *)
-Invariant(s) ==
-    LET b == Begin(s, "label", TRUE) IN
-    IF ~Ok(b) THEN b ELSE IF ~b.rv THEN Ret(b, -1)
-    ELSE IF ~HasAttr(b, "kind") THEN Throw(b, "TypeException")
-    ELSE LET kind == Attr(b, "kind")
-             r == Read(b) IN
-         IF Ok(r) /\ NodeTy(r) = "text" /\ kind = "invariant" THEN Ret(Parse(r, kind), 0)
-         ELSE IF Ok(r) /\ NodeTy(r) = "text" /\ kind = "exponentialrate" THEN Ret(Parse(r, kind), 1)
-         ELSE Ret(r, -1)
-RECURSIVE LocLabels(_, _, _)
-LocLabels(s, inv, rate) ==
-    IF ~Ok(s) THEN [s |-> s, inv |-> inv, rate |-> rate]
+(* the labels of a location: collected in document order (kind, text, XPath), then handed to the grammar invariant first, rate second -
+   the builder takes the rate from the top of its expression stack and the invariant from below it (fix: a rate label written before
+   the invariant used to swap the two) *)
+RECURSIVE LocLabels(_, _)
+LocLabels(s, pend) ==
+    IF ~Ok(s) THEN [s |-> s, pend |-> pend]
     ELSE LET b == Begin(Tick(s), "label", TRUE) IN
-         IF ~Ok(b) \/ ~b.rv THEN [s |-> b, inv |-> inv, rate |-> rate]
-         ELSE LET i == Invariant(b) IN LocLabels(i, inv \/ (Ok(i) /\ i.rv = 0), rate \/ (Ok(i) /\ i.rv = 1))
+         IF ~Ok(b) \/ ~b.rv THEN [s |-> b, pend |-> pend]
+         ELSE IF ~HasAttr(b, "kind") THEN [s |-> Throw(b, "TypeException"), pend |-> pend]
+         ELSE LET kind == Attr(b, "kind")
+                  r == Read(b) IN
+              IF Ok(r) /\ NodeTy(r) = "text" /\ kind \in {"invariant", "exponentialrate"}
+              THEN (IF HasNone(r.path) THEN [s |-> Throw(r, "logic_error"), pend |-> pend]
+                    ELSE LocLabels(r, Append(pend, [kind |-> kind, path |-> PathStr(r, "NONE?")])))
+              ELSE LocLabels(r, pend)
+RECURSIVE ParsePending(_, _, _, _)
+ParsePending(s, pend, kind, i) ==
+    IF i > Len(pend) THEN s
+    ELSE ParsePending(IF pend[i].kind = kind THEN Cb(Emit(s, [e |-> "path", n |-> pend[i].path, a |-> "", x |-> "", y |-> ""]), "parse", kind) ELSE s, pend, kind, i + 1)
+HasKind(pend, kind) == \E i \in 1..Len(pend) : pend[i].kind = kind
 Flag(s, tag) == LET b == Begin(s, tag, FALSE) IN IF ~Ok(b) \/ ~b.rv THEN b ELSE Ret(Read(b), TRUE)
 
 Location(s) ==
@@ -158,7 +162,8 @@ Location(s) ==
                          IF ~Ok(r) THEN r
                          ELSE IF Blank(id) THEN Throw(r, "TypeException")
                          ELSE LET n == Name(r)
-                                  ll == LocLabels(n, FALSE, FALSE)
+                                  l0 == LocLabels(n, <<>>)
+                                  ll == [s |-> IF Ok(l0.s) THEN ParsePending(ParsePending(l0.s, l0.pend, "invariant", 1), l0.pend, "exponentialrate", 1) ELSE l0.s]
                                   u == Flag(ll.s, "urgent")
                                   cm == Flag(u, "committed")
                                   nm == IF Blank(n.rv) THEN "_" \o id ELSE n.rv
